@@ -519,7 +519,7 @@ func (e *Exec) execGo(fr *Frame, st *State, x *ssa.Go) {
 			}
 		}
 	}
-	if fr.top && e.fc != nil {
+	if e.siteFrame(fr) && e.fc != nil {
 		if cs, ok := e.callOrd[x]; ok && e.hasSiteAfter(cs) {
 			var args []*Val
 			for _, a := range c.Args {
@@ -552,7 +552,7 @@ func (e *Exec) execSelect(fr *Frame, st *State, x *ssa.Select) {
 	fr.vals[x] = res
 	e.selectHook(fr, st, x, res)
 	e.selectTiming(fr, st, x, idx)
-	if fr.top && e.fc != nil {
+	if e.siteFrame(fr) && e.fc != nil {
 		if cs, ok := e.callOrd[x]; ok && e.hasSiteAfter(cs) {
 			e.runSiteAfter(fr, st, x, cs, nil, &res)
 		}
@@ -603,7 +603,7 @@ func (e *Exec) execSend(fr *Frame, st *State, x *ssa.Send) {
 	e.clockBlocked(st)
 	e.sendHook(fr, st, x)
 	e.handOver(fr, st, e.val(fr, x.X, st), "true")
-	if fr.top && e.fc != nil {
+	if e.siteFrame(fr) && e.fc != nil {
 		if cs, ok := e.callOrd[x]; ok && e.hasSiteAfter(cs) {
 			ch, v := e.val(fr, x.Chan, st), e.val(fr, x.X, st)
 			e.runSiteAfter(fr, st, x, cs, []*Val{&ch, &v}, nil)
